@@ -345,7 +345,12 @@ func runC52(env *mc.Env) {
 	env.R.Set("space", desc)
 	// partition: a batch = up to batchSize non-aborting cases followed by at most one aborting case
 	var okCases, abortCases []*c52Case
+	outOfModelCases := 0
 	for _, c := range cases {
+		if c.predict() == nil {
+			outOfModelCases++ // a value exceeds the evaluator's int64 model (huge shifts at depth 3): dropped, counted
+			continue
+		}
 		mayAbort := false
 		for _, o := range c.predict() {
 			mayAbort = mayAbort || o.Abort
@@ -358,6 +363,7 @@ func runC52(env *mc.Env) {
 	}
 	env.R.Set("cases_predicted_to_abort", int64(len(abortCases)))
 	env.R.Set("cases_total", int64(len(cases)))
+	env.R.Set("cases_dropped_out_of_evaluator_model", int64(outOfModelCases))
 	batchSize := 64
 	if len(abortCases) > 0 && len(okCases)/len(abortCases) < batchSize {
 		batchSize = len(okCases)/len(abortCases) + 1
